@@ -40,6 +40,7 @@ func C11(ctx *core.Ctx, r *core.Report) {
 	c11NotSupported(ctx, r)
 	c11DeviateKindsIndependent(ctx, r)
 	c11InitializeMerges(ctx, r)
+	c11DeleteEachTakesEffect(ctx, r)
 	r.Count("instances:memo-key-complete(tables found)", memoKeyComplete(ctx, r, scopeFuncs(ctx, "meta", "feature_set.go", "core.go", "resolver.go")))
 }
 
@@ -572,4 +573,84 @@ func c11NotSupported(ctx *core.Ctx, r *core.Report) {
 	}
 	r.Ob("not-supported-by-identity", "meta.resolver.applyDeviation", ctx.Pos(ad.Pos()), ok,
 		"not-supported must re-add every sibling that is not the target itself (candidate != target): otherwise it removes more, or less, than its target")
+}
+
+// c11DeleteEachTakesEffect: `deviate delete` may name several musts (uniques).
+// Each one is removed by re-reading the target's current list and writing back
+// the list without it, so the write-back has to happen inside the loop over the
+// named entries: written back after the loop, only the last removal survives
+// (every iteration filtered the original list).
+func c11DeleteEachTakesEffect(ctx *core.Ctx, r *core.Report) {
+	ad := ctx.Method("meta", "resolver", "applyDeviation")
+	dd := ctx.Named("meta", "DeleteDeviate")
+	if ad == nil || dd == nil {
+		r.Fatalf("anchors meta.resolver.applyDeviation / meta.DeleteDeviate not found")
+		return
+	}
+	st := dd.Underlying().(*types.Struct)
+	loops := map[string]map[*ssa.BasicBlock]bool{}
+	core.Instrs(ad, func(b *ssa.BasicBlock, in ssa.Instruction) {
+		ifi, ok := in.(*ssa.If)
+		if !ok {
+			return
+		}
+		bo, ok := ifi.Cond.(*ssa.BinOp)
+		if !ok || bo.Op != token.LSS {
+			return
+		}
+		c, ok := bo.Y.(*ssa.Call)
+		if !ok {
+			return
+		}
+		if bi, ok := c.Common().Value.(*ssa.Builtin); !ok || bi.Name() != "len" {
+			return
+		}
+		u, ok := core.Strip(c.Common().Args[0]).(*ssa.UnOp)
+		if !ok {
+			return
+		}
+		fa, ok := u.X.(*ssa.FieldAddr)
+		if !ok || core.NamedOf(fa.X.Type()) != dd {
+			return
+		}
+		if lb := loopBlocks(b); lb != nil {
+			loops[st.Field(fa.Field).Name()] = lb
+		}
+	})
+	apply := map[string][]ssa.Instruction{}
+	core.Instrs(ad, func(_ *ssa.BasicBlock, in ssa.Instruction) {
+		switch x := in.(type) {
+		case ssa.CallInstruction:
+			if m := core.IfaceMethod(x); m != nil && m.Name() == "setMusts" {
+				apply["musts"] = append(apply["musts"], x)
+			}
+		case *ssa.Store:
+			if fa, ok := x.Addr.(*ssa.FieldAddr); ok {
+				if n := core.NamedOf(fa.X.Type()); n != nil && n.Obj().Name() == "List" {
+					if core.Deref(fa.X.Type()).Underlying().(*types.Struct).Field(fa.Field).Name() == "unique" {
+						apply["unique"] = append(apply["unique"], x)
+					}
+				}
+			}
+		}
+	})
+	n := 0
+	for _, fld := range []string{"musts", "unique"} {
+		lb, has := loops[fld]
+		if !has {
+			continue
+		}
+		n++
+		ok := false
+		pos := ctx.Pos(ad.Pos())
+		for _, a := range apply[fld] {
+			if lb[a.Block()] {
+				ok = true
+				pos = ctx.Pos(a.Pos())
+			}
+		}
+		r.Ob("delete-each-takes-effect", "meta.resolver.applyDeviation/Delete."+fld, pos, ok,
+			"the list without the deleted "+fld+" entry is not written back to the target inside the loop over the entries named by the deviate: each iteration filters the target's original list again, so of several named entries only the last one is removed (and no error is raised)")
+	}
+	r.Floor("delete-each-takes-effect", n, 2)
 }
